@@ -77,7 +77,8 @@ INPUTS = [
 PNAMES = ["a", "b", "c", "d"]
 PTYPES = {"a": "int", "b": "str", "c": "str", "d": "bool", "kw": "int"}
 PDEFAULTS = {"a": "1", "b": "'b'", "c": "'c'", "d": "False", "kw": "0"}
-WRAPS = [None, "Optional[{output_param}]"]
+# the second template names the placeholder twice (str.format fills every occurrence)
+WRAPS = [None, "Optional[{output_param}]", "Union[{output_param}, List[{output_param}]]"]
 # --input-eval: module-level collections and the Literal their evaluation must give (members that compare equal across types, a repeated member)
 EVAL_INPUTS = OrderedDict((("t", "Literal['p', 'q']"), ("u", "Literal[1, True, '1', 0, False]"), ("w", "Literal['a', 'b', 'a']")))
 
